@@ -120,3 +120,46 @@ Theorem C19_source_rewrite_in_place : forall nd sg a b,
 Proof. exact py_node_write_existing. Qed.
 Print Assumptions C19_source_new_node_blocks.
 Print Assumptions C19_source_rewrite_in_place.
+
+(* ---- the insertion of a new sibling as the source has it (GenTrie.v, regenerated on every run from
+   LRUTrie.__ensure_stem_from_siblings and the node setters; LRUTrieNode.write / set_stem are those of GenNode.v).
+   For EVERY history, from the node object of the root of any sibling tree of the state reached, on any storage
+   object holding its trie file:
+   - if a sibling carries the stem, it is returned and not one byte of the file changes;
+   - otherwise the walk ends at the node whose left (or right) register is empty on the side the stem belongs to; the
+     file gains exactly the blocks of ONE new node (main block + one tail block per 74-byte chunk of the stem:
+     Tst.node_blocks, parent register = that of its siblings, no flag but the default one, no links), at the end of the
+     file; the 128 bytes of the node where the walk ended are rewritten in place with the new node's address in that
+     register; every other byte of the file is unchanged.
+   The generated loop never runs out of fuel and never raises. *)
+From Traph Require GenTrie GenTrieFacts StoreFacts StoreFacts2.
+Import GenTrie GenTrieFacts.
+Theorem C19_source_sibling_insertion : forall d rs h, Forall wf_op h ->
+  let s := run d rs h in
+  forall x sub n sg,
+    StoreFacts.subt sub (tr s) -> node_at sub n -> trep (TraceDefs.files_of s) sg ->
+    match sib_end x sub with
+    | Some (t, None) =>
+        exists sg' n', py_trie_ensure_stem_from_siblings sg n x = Some (sg', n') /\ node_at t n' /\
+                       pm_array sg' = pm_array sg /\ trep (TraceDefs.files_of s) sg'
+    | Some (Nd dt lt ct rt, Some side) =>
+        let a := N.of_nat (length (pm_array sg)) in
+        let d1 := mkNd a (par dt) x false false false true 0 0 0 in
+        let b' := if side then main_block dt a (root_addr rt) (root_addr ct)
+                  else main_block dt (root_addr lt) a (root_addr ct) in
+        StoreFacts.subt (Nd dt lt ct rt) (tr s) /\ (if side then lt else rt) = Lf /\
+        exists sg' sib, py_trie_ensure_stem_from_siblings sg n x = Some (sg', sib) /\
+          nd_block sib = Some a /\ nd_exists sib = true /\ py_node_stem sib = x /\
+          nd_data sib = tblock_vals (main_block d1 0 0 0) /\
+          pm_block_size sg' = py_node_block_size /\
+          firstn (N.to_nat (addr dt)) (pm_array sg') = firstn (N.to_nat (addr dt)) (pm_array sg) /\
+          GenStorage.py_slice (addr dt) (addr dt + 128) (pm_array sg') = encode_tblock b' /\
+          skipn (N.to_nat (addr dt) + 128) (pm_array sg') =
+            skipn (N.to_nat (addr dt) + 128) (pm_array sg) ++ flat_map encode_tblock (node_blocks d1 0 0 0)
+    | _ => False
+    end.
+Proof.
+  intros d rs h Hh s x sub n sg Hsub Hn Hrep.
+  exact (py_trie_ensure_spec s (StoreFacts2.run_Inv18 d rs h Hh) x sub n sg Hsub Hn Hrep).
+Qed.
+Print Assumptions C19_source_sibling_insertion.
